@@ -27,10 +27,12 @@ def run(ctx):
     model(ctx)
     rnd = random.Random(ctx.seed * 31 + 5)
     scen = []
-    sizes_sets = [[8, 12, 40, 3000, 16, 2048, 64, 2500], [8, 12, 16, 24, 13], [2048, 4096, 6000, 3000], [8, 60000, 12, 30000, 100, 2047, 2049]]
+    sizes_sets = [[8, 12, 40, 3000, 16, 2048, 64, 2500], [8, 12, 16, 24, 13], [2048, 4096, 6000, 3000],
+                  [8, 65535, 12, 65528, 32768, 61441, 100, 32767],      # the largest frames the 16-bit length field allows
+                  [8, 60000, 12, 30000, 100, 2047, 2049]]
     plist = [1, 2, 8, 32] if q else [1, 2, 4, 8, 16, 32]
     for P in plist:
-        for j, sizes in enumerate(sizes_sets if not q else sizes_sets[:3]):
+        for j, sizes in enumerate(sizes_sets if not q else sizes_sets[:4]):
             per = max(4, (120 if q else 400) // P)
             if max(sizes) > 10000:
                 per = max(2, per // 4)
@@ -76,7 +78,7 @@ def run(ctx):
         "TLC checks StreamOut.tla (producers, Outbound channel of capacity 1, one writer: receive / encode+write) for 3 producers x %d "
         "messages over all interleavings: each message on the wire at most once, only after submission, per-producer order, all "
         "written eventually; a two-writer variant is refuted. On the code, %s producer goroutines submit xid-tagged real messages "
-        "(8 B - 60 KB, mixed kinds) through MessageStream.Outbound to a recording connection with optional write delay, under the race "
+        "(8 B - 65535 B, mixed kinds) through MessageStream.Outbound to a recording connection with optional write delay, under the race "
         "detector; the event log (submit begin/end, every Write) is validated by TLC against StreamOutTrace: the byte stream is re-framed "
         "by header length and every frame must equal a submitted message's encoding, once, after its submission, in its producer's order."
         % (ctx.extra["model"]["per_producer"], plist),
